@@ -74,7 +74,11 @@ theorem lib_enabled' (s : LState) (hc : s.groupCancelled = true) (hm : ∀ r, s.
     | running => exact ⟨.sendCancel, rfl, by simp [step, hsend, hc]⟩
     | exited r3 =>
     cases hping : s.ping with
-    | running => exact ⟨.pingCancel, rfl, by simp [step, hping, hc]⟩
+    | running =>
+      -- pings enabled: the `<-ctx.Done()` arm; pings disabled: the early `return nil`
+      cases hoff : s.pingOff with
+      | false => exact ⟨.pingCancel, rfl, by simp [step, hping, hc, hoff]⟩
+      | true => exact ⟨.pingDisabled, rfl, by simp [step, hping, hoff]⟩
     | exited r4 =>
       exact ⟨.mainWait, rfl, by simp [step, hmain, hread, hexec, hsend, hping, Loop.done]⟩
   | closedEv => exact ⟨.mainClosedEv, rfl, by simp [step, hmain]⟩
@@ -82,6 +86,34 @@ theorem lib_enabled' (s : LState) (hc : s.groupCancelled = true) (hm : ∀ r, s.
   | discEv r => exact ⟨.mainDisc, rfl, by simp [step, hmain]⟩
   | finish r => exact ⟨.mainFinish, rfl, by simp [step, hmain]⟩
   | returned r => exact absurd hmain (hm r)
+
+/-- With pings disabled the ping loop's exit touches nothing but the loop's own status: no error is
+    recorded, nothing is cancelled, no other thread moves. -/
+theorem ping_off_does_not_end' (s s' : LState) (hs : step s .pingDisabled = some s') :
+    s'.groupCancelled = s.groupCancelled ∧ s'.groupErr = s.groupErr ∧ s'.parentCancelled = s.parentCancelled ∧
+    s'.main = s.main ∧ s'.exec = s.exec ∧ s'.read = s.read ∧ s'.send = s.send := by
+  simp only [step] at hs
+  (repeat' split at hs) <;> cases hs
+  exact ⟨rfl, rfl, rfl, rfl, rfl, rfl, rfl⟩
+
+/-- … and it is possible exactly when pings are disabled and the loop has not returned yet. -/
+theorem pingDisabled_enabled_iff (s : LState) :
+    (step s .pingDisabled).isSome = true ↔ (s.pingOff = true ∧ s.ping = .running) := by
+  simp only [step]
+  cases hp : s.ping <;> cases ho : s.pingOff <;> simp
+
+/-- A ping timeout is impossible with pings disabled. -/
+theorem pingTimeout_needs_pings (s : LState) (ho : s.pingOff = true) : step s .pingTimeout = none := by
+  simp only [step]
+  cases hp : s.ping <;> simp [ho]
+
+/-- The configuration is never changed by a step. -/
+theorem config_fixed (s s' : LState) (a : Act) (hs : step s a = some s') :
+    s'.pingOff = s.pingOff ∧ s'.cap = s.cap := by
+  cases a <;> simp only [step] at hs <;> (repeat' split at hs) <;>
+    first
+      | (cases hs; done)
+      | (cases hs; simp [LState.fail]; done)
 
 theorem bounded_termination' (s s' : LState) (acts : List Act) (hc : s.groupCancelled = true)
     (hl : ∀ a ∈ acts, a.isLib = true) (hr : run s acts = some s') :
